@@ -249,7 +249,45 @@ def g_compose(rng, kind=None, extra_max=3):
     return "\n".join(lines)
 
 
+def rand_mono(rng, names, depth):
+    """random negation-free expression"""
+    if depth == 0 or rng.random() < 0.3:
+        return rng.choice(names)
+    op = rng.choice(["&", "|"])
+    return f"({rand_mono(rng, names, depth - 1)} {op} {rand_mono(rng, names, depth - 1)})"
+
+
+def g_lattice(rng, n, prefix_name="v"):
+    """Latch-rich networks: `x & phi`, `x | phi`, positive cycles, guarded modules.  They have deep,
+    diamond-shaped trap-space lattices (nodes reachable by root paths of different length, children
+    shared between parents, variables that become identity functions inside a trap space)."""
+    names = [f"{prefix_name}{i}" for i in range(n)]
+    lines = []
+    for i, v in enumerate(names):
+        others = [x for x in names if x != v] or names
+        r = rng.random()
+        phi = rand_mono(rng, rng.sample(others, min(len(others), rng.randint(1, 3))), rng.randint(1, 2))
+        if r < 0.3:
+            e = f"{v} & {phi}"
+        elif r < 0.6:
+            e = f"{v} | {phi}"
+        elif r < 0.75:
+            e = phi
+        elif r < 0.85:
+            g = rand_mono(rng, others, 1)
+            e = f"({g} & ({v} | {phi})) | (!({g}) & !{v})"
+        elif r < 0.92:
+            e = v
+        else:
+            e = f"!{v} | {phi}" if rng.random() < 0.5 else f"!({phi})"
+        lines.append(f"{v}, {e}")
+    return "\n".join(lines)
+
+
 def g_mixed(rng, nmax=6, p_core=0.4):
+    r = rng.random()
+    if r < 0.22:
+        return g_lattice(rng, rng.randint(3, nmax))
     r = rng.random()
     if r < p_core:
         return g_compose(rng, extra_max=max(0, nmax - 4))
